@@ -7,6 +7,7 @@ CONSTANTS Fam = "R1"
  NextAlg = "perfile"
  FixIdirArg = TRUE
  FixIdirOrder = TRUE
+ CompDir = "directive"
  CacheFirst = FALSE
  MaxStack = 8
  Emit = FALSE
